@@ -546,10 +546,93 @@ const _: () = {
             self.section = remaining;
 
             /* elements are percent-encoded by the serializer just as other values */
-            match percent_decode(element) {
-                Cow::Borrowed(bytes) => seed.deserialize(bytes.into_deserializer()).map(Some),
-                Cow::Owned(byte_vec) => seed.deserialize(serde::de::value::BytesDeserializer::new(&byte_vec)).map(Some),
+            let element = percent_decode(element);
+            match std::str::from_utf8(&element) {
+                Ok(str) => seed.deserialize(Element(str)).map(Some),
+                Err(_)  => seed.deserialize(serde::de::value::BytesDeserializer::new(&element)).map(Some),
             }
+        }
+    }
+};
+
+/// an element of a sequence or a tuple: not only string-like types but
+/// everything that the serializer writes as an element can be read from it
+struct Element<'e>(&'e str);
+const _: () = {
+    macro_rules! parse {
+        ($( $deserialize:ident => $visit:ident; )*) => {$(
+            fn $deserialize<V>(self, visitor: V) -> Result<V::Value, Self::Error>
+            where V: serde::de::Visitor<'de> {
+                visitor.$visit(self.0.parse().map_err(|_| serde::de::Error::custom(
+                    format!("Unexpected element `{}`", self.0)
+                ))?)
+            }
+        )*};
+    }
+
+    impl<'e, 'de> serde::Deserializer<'de> for Element<'e> {
+        type Error = super::Error;
+
+        fn deserialize_any<V>(self, visitor: V) -> Result<V::Value, Self::Error>
+        where V: serde::de::Visitor<'de> {
+            visitor.visit_str(self.0)
+        }
+
+        parse! {
+            deserialize_bool => visit_bool;
+            deserialize_char => visit_char;
+            deserialize_f32  => visit_f32;
+            deserialize_f64  => visit_f64;
+            deserialize_i8   => visit_i8;
+            deserialize_i16  => visit_i16;
+            deserialize_i32  => visit_i32;
+            deserialize_i64  => visit_i64;
+            deserialize_u8   => visit_u8;
+            deserialize_u16  => visit_u16;
+            deserialize_u32  => visit_u32;
+            deserialize_u64  => visit_u64;
+        }
+
+        fn deserialize_bytes<V>(self, visitor: V) -> Result<V::Value, Self::Error>
+        where V: serde::de::Visitor<'de> {
+            visitor.visit_bytes(self.0.as_bytes())
+        }
+        fn deserialize_byte_buf<V>(self, visitor: V) -> Result<V::Value, Self::Error>
+        where V: serde::de::Visitor<'de> {
+            self.deserialize_bytes(visitor)
+        }
+
+        fn deserialize_option<V>(self, visitor: V) -> Result<V::Value, Self::Error>
+        where V: serde::de::Visitor<'de> {
+            if self.0.is_empty() {
+                visitor.visit_none()
+            } else {
+                visitor.visit_some(self)
+            }
+        }
+
+        fn deserialize_newtype_struct<V>(
+            self,
+            _name: &'static str,
+            visitor: V,
+        ) -> Result<V::Value, Self::Error>
+        where V: serde::de::Visitor<'de> {
+            visitor.visit_newtype_struct(self)
+        }
+
+        fn deserialize_enum<V>(
+            self,
+            _name: &'static str,
+            _variants: &'static [&'static str],
+            visitor: V,
+        ) -> Result<V::Value, Self::Error>
+        where V: serde::de::Visitor<'de> {
+            visitor.visit_enum(self.0.into_deserializer())
+        }
+
+        serde::forward_to_deserialize_any! {
+            str string unit unit_struct seq tuple tuple_struct
+            map struct identifier ignored_any
         }
     }
 };
